@@ -546,6 +546,13 @@ func checkC02(c *runCtx) {
 			}
 		}
 	})
+	// the transport clause: one peer address used over UDP and TCP, the answer arriving over the other transport
+	if probs, n := c02crossTransport(c.t); true {
+		c.add("evaluations", n)
+		for _, p := range probs {
+			c.violation("", "same IP:port over UDP and TCP: "+p, map[string]any{"part": "cross-transport"})
+		}
+	}
 	c.set("distinct_nontrivial", len(classes))
 	// model-checking level keys: every injection is one transition on the real code from one of the explored states
 	c.set("states", len(states))
